@@ -11,7 +11,7 @@ import multiprocessing
 
 from .interp import Program, Ctx, Inconclusive
 from . import models as _models
-from . import models_core, models_coll, models_str, models_json, models_sync, models_misc  # noqa: F401 (registration)
+from . import models_core, models_coll, models_str, models_json, models_sync, models_misc, models_fs  # noqa: F401 (registration)
 
 VERIF = os.path.dirname(os.path.dirname(os.path.abspath(__file__)))
 CACHE = os.path.join(VERIF, ".cache")
